@@ -1,6 +1,8 @@
 /* the free-variable scan of first_pri: unreachable under the contract's precondition (U_to(k) == 0); the loop contract only keeps the instrumentation finite */
 #define LOOP_iterator_templ__first_pri_1 __CPROVER_assigns(g_Z, g_Mto, g_rec_calls, g_rec_k, g_rec_p) \
     __CPROVER_loop_invariant(z == &g_Z && U == g_U && verif_exc == 0 && g_Z <= g_size && g_Z <= g_zs && g_rec_calls == g_Z) __CPROVER_decreases(g_size - g_Z)
-/* likewise the two free-variable scans of first_unpr */
-#define LOOP_iterator_templ__first_unpr_1 __CPROVER_assigns(g_Z, g_Mfrom, g_rec_calls, g_rec_k, g_rec_p, g_pri_calls, g_pri_k, g_pri_p) __CPROVER_loop_invariant(z == &g_Z)
-#define LOOP_iterator_templ__first_unpr_2 __CPROVER_assigns(g_Z, g_Mfrom, g_rec_calls, g_rec_k, g_rec_p, g_pri_calls, g_pri_k, g_pri_p) __CPROVER_loop_invariant(z == &g_Z)
+/* the two scans of first_unpr over a free unprimed variable (1: sets, 2: relations) */
+#define LOOP_iterator_templ__first_unpr_1 __CPROVER_assigns(g_Z, g_Mfrom, g_rec_calls, g_rec_k, g_rec_p) \
+    __CPROVER_loop_invariant(z == &g_Z && U == g_Uf && verif_exc == 0 && g_Z <= g_size && g_Z <= g_zs && g_rec_calls == g_Z && g_pri_calls == 0) __CPROVER_decreases(g_size - g_Z)
+#define LOOP_iterator_templ__first_unpr_2 __CPROVER_assigns(g_Z, g_Mfrom, g_pri_calls, g_pri_k, g_pri_p) \
+    __CPROVER_loop_invariant(z == &g_Z && U == g_Uf && verif_exc == 0 && g_Z <= g_size && g_Z <= g_zs && g_pri_calls == g_Z && g_rec_calls == 0) __CPROVER_decreases(g_size - g_Z)
